@@ -135,3 +135,53 @@ fn c05_canary_bin_never_zero() {
     assert!(u16::from_le_bytes([dst[0], dst[1]]) != 0);
     std::mem::forget(dst);
 }
+
+// ------------------------------------------------------------------------------------------------
+// C05 O5.6: n_cigar_op overflow rule (kSmN placeholder), generic over the Cigar trait
+
+struct BigCigar {
+    len: usize,
+    ops: [Op; 2],
+}
+
+impl noodles_sam::alignment::record::Cigar for BigCigar {
+    fn is_empty(&self) -> bool {
+        self.len == 0
+    }
+
+    fn len(&self) -> usize {
+        self.len
+    }
+
+    fn iter(&self) -> Box<dyn Iterator<Item = std::io::Result<Op>> + '_> {
+        // the harness does not materialise 70 000 operations: the rule under test only looks at len()
+        // and at alignment_span(), which sums whatever iter() yields
+        Box::new(self.ops.iter().map(|op| Ok(*op)))
+    }
+}
+
+// @verif prop=C05 id=O5.6 tier=quick unwind=5 timeout=600 bound="CIGAR with ANY operation count (symbolic len(), incl. 65535/65536/70000) and ANY l_seq: n_cigar_op is the count if it fits u16, else 2 and the placeholder is exactly [SoftClip(l_seq), Skip(reference span)] (SAM 4.2.2)" fns="bam::record::codec::encoder::cigar::overflowing_write_cigar_op_count,Cigar::alignment_span"
+#[kani::proof]
+#[kani::unwind(5)]
+fn c05_cigar_op_count_overflow_rule() {
+    let (len, base_count, m, d): (usize, usize, usize, usize) = kani::any();
+    kani::assume(m < (1 << 28) && d < (1 << 28));
+    let cigar = BigCigar { len, ops: [Op::new(Kind::Match, m), Op::new(Kind::Deletion, d)] };
+    let mut dst = Vec::with_capacity(4);
+    let r = super::cigar::overflowing_write_cigar_op_count(&mut dst, base_count, &cigar).unwrap();
+    assert_eq!(dst.len(), 2);
+    let n = u16::from_le_bytes([dst[0], dst[1]]) as usize;
+    if len <= 65535 {
+        assert!(n == len && r.is_none());
+    } else {
+        assert_eq!(n, 2);
+        let placeholder = r.unwrap();
+        let ops: &[Op] = placeholder.as_ref();
+        assert_eq!(ops.len(), 2);
+        assert!(ops[0] == Op::new(Kind::SoftClip, base_count));
+        assert!(ops[1] == Op::new(Kind::Skip, m + d));
+        kani::cover!(len == 65536);
+        std::mem::forget(placeholder);
+    }
+    std::mem::forget(dst);
+}
